@@ -127,6 +127,39 @@ impl BoundSet {
         true
     }
 
+    /// The lowest version that satisfies this set, if there is one.
+    fn min_version(&self) -> Option<Version> {
+        // The versions that could be the minimum, lowest first.
+        let (first, second) = match self.lower.as_ref() {
+            Bound::Lower(Predicate::Including(v)) => (v.clone(), None),
+            Bound::Lower(Predicate::Excluding(v)) => {
+                let mut next = v.clone();
+                if next.is_prerelease() {
+                    next.pre_release.push(Identifier::Numeric(0));
+                    (next, None)
+                } else {
+                    next.patch += 1;
+                    let mut pre = next.clone();
+                    pre.pre_release.push(Identifier::Numeric(0));
+                    (pre, Some(next))
+                }
+            }
+            Bound::Lower(Predicate::Unbounded) => {
+                (Version::from((0, 0, 0, 0)), Some(Version::from((0, 0, 0))))
+            }
+            Bound::Upper(_) => return None,
+        };
+
+        if self.satisfies(&first) {
+            return Some(first);
+        }
+
+        match second {
+            Some(v) if self.satisfies(&v) => Some(v),
+            _ => None,
+        }
+    }
+
     fn allows_all(&self, other: &BoundSet) -> bool {
         self.lower <= other.lower && other.upper <= self.upper
     }
@@ -495,38 +528,21 @@ impl Range {
     Return the lowest [Version] that can possibly match the given range.
     */
     pub fn min_version(&self) -> Option<Version> {
-        if let Some(min_bound) = self.0.iter().map(|range| &range.lower).min() {
-            let min_bound = min_bound.as_ref();
-            match min_bound {
-                Bound::Lower(pred) => match pred {
-                    Predicate::Including(v) => Some(v.clone()),
-                    Predicate::Excluding(v) => {
-                        let mut v = v.clone();
-                        if v.is_prerelease() {
-                            v.pre_release.push(Identifier::Numeric(0))
-                        } else {
-                            v.patch += 1;
-                        }
-                        Some(v)
-                    }
-                    Predicate::Unbounded => {
-                        let mut zero = Version::from((0, 0, 0));
-                        if self.satisfies(&zero) {
-                            return Some(zero);
-                        }
+        let mut min: Option<Version> = None;
 
-                        zero.pre_release.push(Identifier::Numeric(0));
-                        if self.satisfies(&zero) {
-                            return Some(zero);
-                        }
-                        None
-                    }
-                },
-                Bound::Upper(_) => None,
+        for range in &self.0 {
+            if let Some(candidate) = range.min_version() {
+                let lower = match &min {
+                    Some(current) => candidate < *current,
+                    None => true,
+                };
+                if lower {
+                    min = Some(candidate);
+                }
             }
-        } else {
-            None
         }
+
+        min
     }
 }
 
